@@ -354,6 +354,9 @@ impl Fx {
             // offsets of 24 h or more are not readable values (F32): like any other invalid rule they
             // fall through to the system zone / UTC
             "AAA24", "XXX-24:30", "AAA-24", "AAA24:00:00", "AAA-24:00:01",
+            // second review G7: a DST rule without dates is refused by the rule reader, also when it is
+            // reached only because white space hid the zone FILE of that name; ':' never reads a rule
+            " EST5EDT ", "EST5EDT ", ": EST5EDT", " CET-1CEST",
         ] {
             p.push(mk(g.to_string(), "garbage", Some(self.sys_expect)));
         }
@@ -437,8 +440,19 @@ fn probe_file(path: &str, dg: &dyn Fn(&vt::Zone) -> i64) -> Option<String> {
 
 /// everything the model may ask about the world when the TZ values are `vals`
 fn world_tokens(fx: &Fx, vals: &[&TzVal], dg: &dyn Fn(&vt::Zone) -> i64, utc_dg: i64) -> String {
+    world_tokens_with(&fx.sysname, fx.mtime, &[], vals, dg, utc_dg)
+}
+
+/// the same for an explicit system zone name / mtime (the namespace children describe THEIR world)
+fn world_tokens_with(sysname: &Option<String>, mtime: Option<u128>, extra: &[String], vals: &[&TzVal], dg: &dyn Fn(&vt::Zone) -> i64, utc_dg: i64) -> String {
+    struct F<'a> {
+        sysname: &'a Option<String>,
+        mtime: Option<u128>,
+    }
+    let fx = F { sysname, mtime };
     let mut paths: Vec<String> = vec![LOCALTIME.to_string()];
-    if let Some(n) = &fx.sysname {
+    paths.extend(extra.iter().cloned());
+    if let Some(n) = fx.sysname {
         paths.push(format!("{}/{}", TZDB, n));
     }
     let mut rules: BTreeMap<String, i64> = BTreeMap::new();
@@ -466,7 +480,7 @@ fn world_tokens(fx: &Fx, vals: &[&TzVal], dg: &dyn Fn(&vt::Zone) -> i64, utc_dg:
     paths.sort();
     paths.dedup();
     let mut toks = vec![format!("U{}", utc_dg)];
-    if let Some(n) = &fx.sysname {
+    if let Some(n) = fx.sysname {
         toks.push(format!("N{}", hex(n.as_bytes())));
     }
     if let Some(m) = fx.mtime {
@@ -490,6 +504,36 @@ enum St {
     Wait(u64), // milliseconds
     Spawn(usize),
     Conv(usize, bool), // thread, local→UTC direction
+    /// a conversion of the given reading (seconds of the naive date-time) instead of the probe: used
+    /// with readings in a gap / fold of one of the zones, where the two directions disagree
+    ConvAt(usize, bool, i64),
+    /// first step only: the value TZ has when the process starts
+    Start(TzVal),
+    /// namespace children only: /etc/localtime is re-linked to that zone of the zoneinfo directory
+    Link(String),
+}
+
+/// marker file that exists only inside the private mount namespace set up by `run_ns_children`
+const NS_MARKER: &str = "/etc/.c18ns";
+/// the zone /etc/localtime names when a namespace child starts (UTC+5:45: neither UTC nor in the pools)
+const NS_SYS0: &str = "Asia/Kathmandu";
+
+fn lt_mtime() -> Option<u128> {
+    std::fs::symlink_metadata(LOCALTIME).and_then(|m| m.modified()).ok().and_then(|t| t.duration_since(UNIX_EPOCH).ok()).map(|d| d.as_nanos())
+}
+
+/// what iana_time_zone reports on Linux: the target of the /etc/localtime LINK (not canonicalised)
+/// below a zoneinfo prefix, else /etc/timezone
+fn iana_name() -> Option<String> {
+    if let Ok(t) = std::fs::read_link(LOCALTIME) {
+        let s = t.to_string_lossy().into_owned();
+        for p in ["/usr/share/zoneinfo/", "../usr/share/zoneinfo/", "/etc/zoneinfo/", "../etc/zoneinfo/"] {
+            if let Some(r) = s.strip_prefix(p) {
+                return Some(r.to_string());
+            }
+        }
+    }
+    std::fs::read_to_string("/etc/timezone").ok().map(|s| s.trim_end().to_string())
 }
 
 fn encode(steps: &[St]) -> String {
@@ -503,6 +547,12 @@ fn encode(steps: &[St]) -> String {
             St::Wait(ms) => format!("W{}", ms),
             St::Spawn(t) => format!("T{}", t),
             St::Conv(t, l) => format!("C{}:{}", t, if *l { 'l' } else { 'u' }),
+            St::ConvAt(t, l, r) => format!("D{}:{}:{}", t, if *l { 'l' } else { 'u' }, r),
+            St::Start(v) => match &v.v {
+                None => "E-".to_string(),
+                Some(b) => format!("E{}", hex(b)),
+            },
+            St::Link(n) => format!("L{}", hex(n.as_bytes())),
         })
         .collect::<Vec<_>>()
         .join(" ")
@@ -522,6 +572,15 @@ fn decode(text: &str) -> Vec<St> {
                 "S" => St::Set(TzVal { v: Some(unhex(rest)), kind: "", expect: None }),
                 "W" => St::Wait(rest.parse().unwrap()),
                 "T" => St::Spawn(rest.parse().unwrap()),
+                "E" if rest == "-" => St::Start(TzVal { v: None, kind: "", expect: None }),
+                "E" => St::Start(TzVal { v: Some(unhex(rest)), kind: "", expect: None }),
+                "L" => St::Link(String::from_utf8_lossy(&unhex(rest)).into_owned()),
+                "D" => {
+                    let mut it = rest.split(':');
+                    let t = it.next().unwrap().parse().unwrap();
+                    let l = it.next().unwrap() == "l";
+                    St::ConvAt(t, l, it.next().unwrap().parse().unwrap())
+                }
                 _ => {
                     let (t, d) = rest.split_once(':').unwrap();
                     St::Conv(t.parse().unwrap(), d == "l")
@@ -536,7 +595,9 @@ fn now_us() -> u64 {
 }
 
 /// one public conversion with `chrono::Local` on the calling thread
-fn convert(local: bool) -> (u64, u64, String) {
+fn convert(local: bool, at: Option<i64>) -> (u64, u64, String) {
+    let rd = at.and_then(|s| chrono::DateTime::from_timestamp(s, 0)).map(|d| d.naive_utc()).unwrap_or_else(probe_utc);
+    let probe_utc = move || rd;
     let before = now_us();
     let r = if local {
         gs(
@@ -556,15 +617,15 @@ fn convert(local: bool) -> (u64, u64, String) {
 }
 
 struct Worker {
-    tx: Sender<bool>,
+    tx: Sender<(bool, Option<i64>)>,
     rx: Receiver<(u64, u64, String)>,
 }
 fn worker() -> Worker {
-    let (tx, rx_cmd) = channel::<bool>();
+    let (tx, rx_cmd) = channel::<(bool, Option<i64>)>();
     let (tx_res, rx) = channel();
     std::thread::spawn(move || {
-        while let Ok(local) = rx_cmd.recv() {
-            if tx_res.send(convert(local)).is_err() {
+        while let Ok((local, at)) = rx_cmd.recv() {
+            if tx_res.send(convert(local, at)).is_err() {
                 break;
             }
         }
@@ -593,9 +654,31 @@ fn exec_history(steps: &[St]) -> Vec<Ev> {
             St::Spawn(t) => {
                 workers.insert(*t, worker());
             }
-            St::Conv(t, l) => {
+            St::Start(_) => {}
+            St::Link(name) => {
+                // never outside the private mount namespace
+                let res = if std::path::Path::new(NS_MARKER).exists() && std::env::var("CHK_C18_NS").is_ok() {
+                    let _ = std::fs::remove_file(LOCALTIME);
+                    let _ = std::os::unix::fs::symlink(format!("{}/{}", TZDB, name), LOCALTIME);
+                    format!(
+                        "link {}:{}:{}",
+                        lt_mtime().map(|m| m.to_string()).unwrap_or("-".into()),
+                        probe_file(LOCALTIME, &dg1).unwrap_or("a".into()),
+                        iana_name().map(|n| hex(n.as_bytes())).unwrap_or("-".into())
+                    )
+                } else {
+                    "link-refused".to_string()
+                };
+                evs.push(Ev { step: i, before: 0, after: 0, res });
+            }
+            St::Conv(..) | St::ConvAt(..) => {
+                let (t, l, at) = match s {
+                    St::Conv(t, l) => (t, l, None),
+                    St::ConvAt(t, l, r) => (t, l, Some(*r)),
+                    _ => unreachable!(),
+                };
                 let w = workers.entry(*t).or_insert_with(worker);
-                let r = if w.tx.send(*l).is_ok() { w.rx.recv().ok() } else { None };
+                let r = if w.tx.send((*l, at)).is_ok() { w.rx.recv().ok() } else { None };
                 let (before, after, res) = r.unwrap_or((now_us(), now_us(), "thread-died".into()));
                 evs.push(Ev { step: i, before, after, res });
             }
@@ -612,16 +695,73 @@ struct Track {
     tainted: bool,
 }
 
-/// turn an executed history into its op line, expected output and oracle verdicts
+/// the zone a TZ value names, built WITHOUT chrono's selection code (zone file below the zoneinfo
+/// directory / absolute path, else the POSIX rule); only for the values of the gap/fold histories
+fn zone_of_val(v: &TzVal) -> Option<vt::Zone> {
+    let s = std::str::from_utf8(v.v.as_ref()?).ok()?;
+    if s.is_empty() {
+        return None;
+    }
+    let name = s.strip_prefix(':').unwrap_or(s);
+    let path = if name.starts_with('/') { name.to_string() } else { format!("{}/{}", TZDB, name) };
+    if let Ok(bytes) = std::fs::read(&path) {
+        return vt::from_tzif(&bytes).ok();
+    }
+    if s.starts_with(':') {
+        return None;
+    }
+    let t = trim_ws(s);
+    vt::rule_from_tz_string(t.as_bytes(), false).ok()?;
+    vt::from_tzif(&tzif_v2(0, "UTC", t)).ok()
+}
+
+/// what a zone answers for a reading, in the text form `convert` prints
+fn zone_answer(z: &vt::Zone, at: i64, local: bool) -> String {
+    if local {
+        let d = chrono::DateTime::from_timestamp(at, 0).unwrap().naive_utc();
+        z.offsets_for_local(d).map(show_m).unwrap_or("panic".into())
+    } else {
+        z.offset_at(at).map(|x| x.0.to_string()).unwrap_or("panic".into())
+    }
+}
+
+/// what a namespace child reported about its world
+struct NsCtx {
+    world: String,
+    /// offset at the probe of the zone /etc/localtime names when the child starts
+    sys0: i64,
+}
+
 fn judge(c: &mut Ctx, fx: &Fx, steps: &[St], evs: &[Ev], tag: &str) {
-    let vals: Vec<&TzVal> = steps.iter().filter_map(|s| if let St::Set(v) = s { Some(v) } else { None }).collect();
-    let world = world_tokens(fx, &vals, &dg1, 0);
+    judge_ns(c, fx, steps, evs, tag, None)
+}
+
+/// turn an executed history into its op line, expected output and oracle verdicts
+fn judge_ns(c: &mut Ctx, fx: &Fx, steps: &[St], evs: &[Ev], tag: &str, ns: Option<&NsCtx>) {
+    let vals: Vec<&TzVal> = steps.iter().filter_map(|s| if let St::Set(v) | St::Start(v) = s { Some(v) } else { None }).collect();
+    let world = match ns {
+        Some(n) => n.world.clone(),
+        None => world_tokens(fx, &vals, &dg1, 0),
+    };
+    // the system zone as the history goes (changes with `Link` steps inside a namespace)
+    let mut cur_sys: i64 = ns.map(|n| n.sys0).unwrap_or(fx.sys_expect);
+    let mut linked_since_change = false;
+    // gap/fold readings: every zone named so far with its content number, to map an answer back
+    let has_at = steps.iter().any(|s| matches!(s, St::ConvAt(..)));
+    let mut zcands: Vec<(i64, vt::Zone)> = vec![];
+    let mut zcands_complete = ns.is_none();
+    if has_at && ns.is_none() {
+        match std::fs::read(LOCALTIME).ok().and_then(|b| vt::from_tzif(&b).ok()) {
+            Some(z) => zcands.push((dg1(&z), z)),
+            None => zcands_complete = false,
+        }
+    }
     let mut toks: Vec<String> = vec![];
     let mut outs: Vec<String> = vec![];
     let mut tracks: BTreeMap<usize, Track> = BTreeMap::new();
     let mut cur: Option<&TzVal> = None; // None = TZ as the process started: unset
     // offsets of every zone TZ has named so far (None once a value without expectation was set)
-    let mut named_so_far: Option<Vec<i64>> = Some(vec![fx.sys_expect]);
+    let mut named_so_far: Option<Vec<i64>> = Some(vec![cur_sys]);
     // the TZ token under which each thread's cache was last (re)built or re-checked
     let mut fresh_tok: BTreeMap<usize, String> = BTreeMap::new();
     // kind of the value under which each thread's cache was last (re)built, and of the value that
@@ -632,11 +772,39 @@ fn judge(c: &mut Ctx, fx: &Fx, steps: &[St], evs: &[Ev], tag: &str) {
     let mut ei = 0;
     for (i, s) in steps.iter().enumerate() {
         match s {
-            St::Set(v) => {
+            St::Link(name) => {
+                if ei >= evs.len() || evs[ei].step != i || !evs[ei].res.starts_with("link ") {
+                    c.fail("C18 harness: namespace child did not re-link /etc/localtime", &format!("{} step {}", encode(steps), i));
+                    return;
+                }
+                toks.push(format!("L{}", &evs[ei].res[5..]));
+                ei += 1;
+                match std::fs::read(format!("{}/{}", TZDB, name)).ok().and_then(|b| vt::from_tzif(&b).ok()) {
+                    Some(z) => cur_sys = dg1(&z),
+                    None => {
+                        c.fail("C18 harness: link target is not a zone file", name);
+                        return;
+                    }
+                }
+                linked_since_change = true;
+                if let Some(xs) = named_so_far.as_mut() {
+                    xs.push(cur_sys);
+                }
+                c.count(&format!("{}.relink-etc-localtime", tag));
+            }
+            St::Set(v) | St::Start(v) => {
                 before_change = cur.map(|x| x.kind);
                 cur = Some(v);
-                toks.push(format!("S{}", v.tok()));
-                named_so_far = match (named_so_far, v.expect) {
+                linked_since_change = false;
+                if has_at {
+                    match zone_of_val(v) {
+                        Some(z) => zcands.push((dg1(&z), z)),
+                        None => zcands_complete = false,
+                    }
+                }
+                toks.push(format!("{}{}", if matches!(s, St::Start(_)) { "E" } else { "S" }, v.tok()));
+                let ex = if v.kind.starts_with("ns-sys") { Some(cur_sys) } else { v.expect };
+                named_so_far = match (named_so_far, ex) {
                     (Some(mut xs), Some(e)) => {
                         xs.push(e);
                         Some(xs)
@@ -651,13 +819,40 @@ fn judge(c: &mut Ctx, fx: &Fx, steps: &[St], evs: &[Ev], tag: &str) {
                 fresh_kind.remove(t);
                 toks.push(format!("T{}", t));
             }
-            St::Conv(t, l) => {
+            St::Conv(..) | St::ConvAt(..) => {
+                let (t, l, at) = match s {
+                    St::Conv(t, l) => (t, l, None),
+                    St::ConvAt(t, l, r) => (t, l, Some(*r)),
+                    _ => unreachable!(),
+                };
                 if ei >= evs.len() || evs[ei].step != i {
                     c.fail("C18 harness: child did not report a conversion", &format!("{} step {}", encode(steps), i));
                     return;
                 }
-                let e = &evs[ei];
+                let raw = &evs[ei];
                 ei += 1;
+                // a gap/fold reading: the answer is mapped back to the ONE zone named so far that gives
+                // it for this reading in this direction (content number = its offset at the probe)
+                let mut unmappable = false;
+                let mapped: Option<String> = at.and_then(|r| {
+                    let mut nums: Vec<i64> = zcands.iter().filter(|(_, z)| zone_answer(z, r, *l) == raw.res).map(|x| x.0).collect();
+                    nums.sort();
+                    nums.dedup();
+                    if nums.len() == 1 {
+                        c.count(&format!("{}.gapfold.answer.{}", tag, if raw.res.starts_with("amb") { "ambiguous" } else if raw.res == "none" { "none" } else { "single" }));
+                        Some(nums[0].to_string())
+                    } else if nums.is_empty() && zcands_complete {
+                        c.fail(
+                            "C18 a conversion answered with what no zone named so far answers for that reading",
+                            &format!("history [{}] step {}: reading {} {} got {}", encode(steps), i, r, if *l { "local" } else { "utc" }, raw.res),
+                        );
+                        None
+                    } else {
+                        unmappable = true;
+                        None
+                    }
+                });
+                let e = &Ev { step: raw.step, before: raw.before, after: raw.after, res: mapped.unwrap_or(raw.res.clone()) };
                 let mid = (e.before + e.after) / 2;
                 let delta = prev_mid.map(|p| mid.saturating_sub(p)).unwrap_or(0);
                 prev_mid = Some(mid);
@@ -681,18 +876,41 @@ fn judge(c: &mut Ctx, fx: &Fx, steps: &[St], evs: &[Ev], tag: &str) {
                         '?'
                     }
                 };
+                let cls = if unmappable { '?' } else { cls };
                 toks.push(format!("A{}", delta));
                 toks.push(format!("C{}:{}:{}", t, if *l { 'l' } else { 'u' }, cls));
                 outs.push(if cls == '?' { "?".to_string() } else { e.res.clone() });
                 c.count(&format!("{}.class.{}", tag, match cls { 'n' => "new-thread", 'r' => "reuse<1s", 'f' => "refresh>=1s", _ => "ambiguous-not-judged" }));
                 // ---- direct oracles: the property itself, no model involved
                 let want = match cur {
+                    Some(v) if v.kind.starts_with("ns-sys") => Some(cur_sys),
                     Some(v) => v.expect,
-                    None => Some(fx.sys_expect),
+                    None => Some(cur_sys),
                 };
+                // the direct form for a gap/fold reading: the raw answer is what the zone of the
+                // current TZ value answers for that reading in that direction
+                if let (Some(r), Some(v)) = (at, cur) {
+                    if cls == 'f' || cls == 'n' {
+                        if let Some(z) = zone_of_val(v) {
+                            let w = zone_answer(&z, r, *l);
+                            if raw.res != w {
+                                c.fail(
+                                    "C18 a gap/fold reading is not answered by the zone TZ names (>= 1 s after the change / new thread)",
+                                    &format!("history [{}] step {}: TZ={} reading {} {} demands {}, got {}", encode(steps), i, v.show(), r, if *l { "local" } else { "utc" }, w, raw.res),
+                                );
+                            }
+                            c.count(&format!("{}.gapfold.judged.{}.{}", tag, if *l { "local" } else { "utc" }, if cls == 'f' { "refresh>=1s" } else { "new-thread" }));
+                        }
+                    }
+                }
                 if let Some(w) = want {
                     let cur_s = cur.map(|v| v.show()).unwrap_or("<unset>".into());
-                    if cls == 'f' && e.res != w.to_string() {
+                    if cls == 'f' && linked_since_change && cur.map(|v| v.v.is_none()).unwrap_or(true) && e.res != w.to_string() {
+                        c.fail(
+                            "C18 a change of /etc/localtime (TZ unset) is not honoured by a conversion >= 1 s later on the same thread",
+                            &format!("history [{}] step {}: /etc/localtime now demands offset {}, got {}", encode(steps), i, w, e.res),
+                        );
+                    } else if cls == 'f' && e.res != w.to_string() {
                         c.fail(
                             "C18 a change of TZ is not honoured by a conversion >= 1 s later on the same thread",
                             &format!("history [{}] step {}: TZ={} demands offset {}, got {}", encode(steps), i, cur_s, w, e.res),
@@ -1133,11 +1351,143 @@ fn direction_oracles(c: &mut Ctx, fx: &Fx) {
 // ------------------------------------------------------------------------------------ entry
 fn child_main(text: &str) -> ! {
     let steps = decode(text);
-    std::env::remove_var("TZ");
+    if !matches!(steps.first(), Some(St::Start(_))) {
+        std::env::remove_var("TZ");
+    }
+    if std::env::var("CHK_C18_NS").is_ok() {
+        // inside `unshare -m`: /etc is a private tmpfs copy, /etc/localtime a link the harness made
+        if !std::path::Path::new(NS_MARKER).exists() {
+            println!("NS setup-failed");
+            std::process::exit(0)
+        }
+        // files named like POSIX rules in a zoneinfo directory: one that is not TZif, one that is
+        let _ = std::fs::create_dir_all("/etc/zoneinfo");
+        let _ = std::fs::write("/etc/zoneinfo/QQQ-3", b"not a TZif file");
+        let _ = std::fs::write("/etc/zoneinfo/QQS-3", tzif_v1(4560, "QQS"));
+        let vals: Vec<&TzVal> = steps.iter().filter_map(|s| if let St::Set(v) | St::Start(v) = s { Some(v) } else { None }).collect();
+        let extra: Vec<String> = steps.iter().filter_map(|s| if let St::Link(n) = s { Some(format!("{}/{}", TZDB, n)) } else { None }).collect();
+        println!("W {}", world_tokens_with(&iana_name(), lt_mtime(), &extra, &vals, &dg1, 0));
+    }
     for e in exec_history(&steps) {
         println!("E {} {} {} {}", e.step, e.before, e.after, e.res);
     }
     std::process::exit(0)
+}
+
+/// Second review G2: histories run in a PRIVATE MOUNT NAMESPACE (`unshare -m`), where /etc is a tmpfs
+/// copy: /etc/localtime is a link the harness controls (system zone = Asia/Kathmandu, not UTC, so
+/// "falls back to the system zone" and "falls back to UTC" differ), it can be re-linked during a
+/// history (the mtime branch of the cache), and /etc/zoneinfo — one of ZONE_INFO_DIRECTORIES — holds
+/// files named like POSIX rules (fall-through to the rule reader would show).  The host is untouched.
+fn ns_histories() -> Vec<Vec<St>> {
+    use St::*;
+    let mk = |s: &str, kind: &'static str, e: Option<i64>| TzVal { v: Some(s.as_bytes().to_vec()), kind, expect: e };
+    let unset = || TzVal { v: None, kind: "ns-sys-unset", expect: None };
+    let ny = || mk("America/New_York", "ns-zone-name", Some(-18000));
+    vec![
+        // the mtime branch: TZ unset throughout, /etc/localtime re-linked
+        vec![Conv(0, false), Link("America/New_York".into()), Wait(150), Conv(0, true), Wait(1100), Conv(0, false), Conv(0, true), Spawn(1), Conv(1, false)],
+        // clause 5: unusable values fall back to the system zone, which is not UTC here
+        vec![Set(mk("garbage!", "ns-sys-garbage", None)), Conv(0, false), Set(mk("QQQ-3", "ns-sys-rule-named-bad-file", None)), Wait(1100), Conv(0, true),
+             Set(mk(":QQR-3", "ns-sys-colon-missing-rule-name", None)), Spawn(1), Conv(1, false), Wait(1100), Conv(0, false)],
+        // a file named like a rule beats the rule; a readable non-TZif file and a directory fall back
+        vec![Set(mk("QQS-3", "ns-file-beats-rule", Some(4560))), Conv(0, false), Set(mk("/etc/passwd", "ns-sys-not-tzif", None)), Wait(1100), Conv(0, false),
+             Set(mk("Europe", "ns-sys-directory", None)), Spawn(1), Conv(1, true)],
+        // environment -> /etc/localtime with a link changed meanwhile, then two re-links in a row
+        vec![Set(ny()), Conv(0, false), Link("Europe/Berlin".into()), Set(unset()), Wait(1100), Conv(0, false), Link("Pacific/Chatham".into()),
+             Link("Asia/Tokyo".into()), Wait(1100), Conv(0, true)],
+        // unchanged mtime: re-checked and kept; then re-linked: both threads follow
+        vec![Conv(0, false), Spawn(1), Conv(1, false), Wait(1100), Conv(0, false), Link("America/New_York".into()), Wait(1100), Conv(1, true), Conv(0, false)],
+    ]
+}
+
+fn run_ns_children(c: &mut Ctx, fx: &Fx, hists: Vec<Vec<St>>) {
+    let permitted = std::process::Command::new("unshare")
+        .args(["-m", "true"])
+        .stdin(std::process::Stdio::null())
+        .stdout(std::process::Stdio::null())
+        .stderr(std::process::Stdio::null())
+        .status()
+        .map(|s| s.success())
+        .unwrap_or(false);
+    if !permitted {
+        c.count("ns.skipped.unshare-not-permitted");
+        c.sample("namespace histories skipped: `unshare -m true` fails here (clause 5 / mtime branch not observed)");
+        return;
+    }
+    let Some(sys0) = std::fs::read(format!("{}/{}", TZDB, NS_SYS0)).ok().and_then(|b| vt::from_tzif(&b).ok()).map(|z| dg1(&z)) else {
+        c.count("ns.skipped.no-zoneinfo");
+        return;
+    };
+    let exe = std::env::current_exe().unwrap();
+    let mnt = std::env::temp_dir().join(format!("c18ns-{}", std::process::id()));
+    let _ = std::fs::create_dir_all(&mnt);
+    let script = r#"set -e; mount -t tmpfs tmpfs "$1"; cp -a /etc/. "$1"/ 2>/dev/null || true; mount --bind "$1" /etc; rm -f /etc/localtime /etc/timezone; ln -s "$2" /etc/localtime; : > /etc/.c18ns; exec "$0" c18"#;
+    let kids: Vec<_> = hists
+        .iter()
+        .map(|h| {
+            std::process::Command::new("unshare")
+                .args(["-m", "sh", "-c", script])
+                .arg(&exe)
+                .arg(&mnt)
+                .arg(format!("{}/{}", TZDB, NS_SYS0))
+                .env("CHK_C18_CHILD", encode(h))
+                .env("CHK_C18_NS", "1")
+                .env_remove("TZ")
+                .stdin(std::process::Stdio::null())
+                .stdout(std::process::Stdio::piped())
+                .stderr(std::process::Stdio::null())
+                .spawn()
+        })
+        .collect();
+    for (h, k) in hists.iter().zip(kids) {
+        let out = match k.and_then(|k| k.wait_with_output()) {
+            Ok(o) => o,
+            Err(e) => {
+                c.fail("C18 harness: namespace child could not run", &format!("{} [{}]", e, encode(h)));
+                continue;
+            }
+        };
+        let text = String::from_utf8_lossy(&out.stdout);
+        let Some(world) = text.lines().find_map(|l| l.strip_prefix("W ")) else {
+            c.fail("C18 harness: namespace child reported no world (mount setup failed?)", &format!("[{}] output {:?}", encode(h), text));
+            continue;
+        };
+        let evs = parse_evs(&text);
+        c.count("ns.histories");
+        c.sample(&format!("namespace history: {}", encode(h)));
+        judge_ns(c, fx, h, &evs, "ns", Some(&NsCtx { world: world.to_string(), sys0 }));
+    }
+    let _ = std::fs::remove_dir(&mnt);
+}
+
+fn parse_evs(text: &str) -> Vec<Ev> {
+    text.lines()
+        .filter_map(|l| {
+            let mut it = l.splitn(5, ' ');
+            if it.next()? != "E" {
+                return None;
+            }
+            Some(Ev { step: it.next()?.parse().ok()?, before: it.next()?.parse().ok()?, after: it.next()?.parse().ok()?, res: it.next()?.to_string() })
+        })
+        .collect()
+}
+
+/// cache state x direction (second review G4): after a change of TZ the conversions read a wall-clock
+/// time in a gap or a fold of one of the two zones, where `from_local_datetime` and
+/// `offset_from_utc_datetime` disagree; a refresh skipped on the local path only would show
+fn gapfold_histories() -> Vec<Vec<St>> {
+    use St::*;
+    let mk = |s: &str, e: i64| TzVal { v: Some(s.as_bytes().to_vec()), kind: "gapfold", expect: Some(e) };
+    let (ny, ber) = (|| mk("America/New_York", -18000), || mk("Europe/Berlin", 3600));
+    let at = |m: u32, d: u32, h: u32, mi: u32| NaiveDate::from_ymd_opt(2024, m, d).unwrap().and_hms_opt(h, mi, 0).unwrap().and_utc().timestamp();
+    let (ber_gap, ny_gap, ber_fold, ny_fold) = (at(3, 31, 2, 30), at(3, 10, 2, 30), at(10, 27, 2, 30), at(11, 3, 1, 30));
+    vec![
+        vec![Set(ny()), ConvAt(0, true, ber_gap), Set(ber()), Wait(150), ConvAt(0, true, ber_gap), Wait(1100), ConvAt(0, true, ber_gap), ConvAt(0, false, ber_gap)],
+        vec![Set(ber()), ConvAt(0, false, ny_gap), Set(ny()), Wait(1100), ConvAt(0, true, ny_gap), ConvAt(0, true, ny_fold)],
+        vec![Set(ny()), ConvAt(0, true, ber_fold), Set(ber()), Spawn(1), ConvAt(1, true, ber_fold), Wait(1100), ConvAt(0, true, ber_fold), ConvAt(0, false, ber_fold)],
+        vec![Set(ber()), ConvAt(0, true, ny_fold), Set(ny()), Wait(600), ConvAt(0, true, ny_fold), Wait(600), ConvAt(0, true, ny_fold)],
+    ]
 }
 
 fn run_children(c: &mut Ctx, fx: &Fx, hists: Vec<Vec<St>>, par: usize) {
@@ -1146,10 +1496,14 @@ fn run_children(c: &mut Ctx, fx: &Fx, hists: Vec<Vec<St>>, par: usize) {
         let kids: Vec<_> = batch
             .iter()
             .map(|h| {
-                std::process::Command::new(&exe)
+                let mut cmd = std::process::Command::new(&exe);
+                match h.first() {
+                    Some(St::Start(TzVal { v: Some(b), .. })) => cmd.env("TZ", std::ffi::OsStr::from_bytes(b)),
+                    _ => cmd.env_remove("TZ"),
+                };
+                cmd
                     .arg("c18")
                     .env("CHK_C18_CHILD", encode(h))
-                    .env_remove("TZ")
                     .stdin(std::process::Stdio::null())
                     .stdout(std::process::Stdio::piped())
                     .stderr(std::process::Stdio::null())
@@ -1165,21 +1519,7 @@ fn run_children(c: &mut Ctx, fx: &Fx, hists: Vec<Vec<St>>, par: usize) {
                 }
             };
             let text = String::from_utf8_lossy(&out.stdout);
-            let evs: Vec<Ev> = text
-                .lines()
-                .filter_map(|l| {
-                    let mut it = l.splitn(5, ' ');
-                    if it.next()? != "E" {
-                        return None;
-                    }
-                    Some(Ev {
-                        step: it.next()?.parse().ok()?,
-                        before: it.next()?.parse().ok()?,
-                        after: it.next()?.parse().ok()?,
-                        res: it.next()?.to_string(),
-                    })
-                })
-                .collect();
+            let evs: Vec<Ev> = parse_evs(&text);
             c.count("timed.histories");
             c.sample(&format!("timed history: {}", encode(h)));
             judge(c, fx, h, &evs, "timed");
@@ -1332,7 +1672,29 @@ pub fn run(c: &mut Ctx) {
             c.count("timed.hash-twin-histories");
         }
     }
+    // second review G4: gap/fold readings after a change (cache state x direction)
+    for h in gapfold_histories() {
+        hists.push(h);
+        c.count("timed.gapfold-histories");
+    }
+    // TZ already set when the process starts (the model's e0 is not `unset`)
+    {
+        let dist = fx.distinct_pool();
+        let (a, b) = (dist[0].clone(), dist[dist.len() / 2].clone());
+        let unset = TzVal { v: None, kind: "unset", expect: Some(fx.sys_expect) };
+        hists.push(vec![St::Start(a.clone()), St::Conv(0, false), St::Set(unset), St::Wait(1100), St::Conv(0, true)]);
+        hists.push(vec![St::Start(a), St::Spawn(1), St::Conv(1, true), St::Set(b), St::Wait(1100), St::Conv(1, false)]);
+        c.count("timed.start-with-TZ-set-histories");
+        c.count("timed.start-with-TZ-set-histories");
+        // a refresh must move `last_checked`: a change made right after a refresh is NOT seen for the
+        // next second (model comparison only: the property does not demand staleness)
+        let (a, b) = (dist[1 % dist.len()].clone(), dist[dist.len() / 3].clone());
+        hists.push(vec![St::Set(a), St::Conv(0, false), St::Wait(1100), St::Conv(0, true), St::Set(b), St::Wait(150), St::Conv(0, false), St::Conv(0, true)]);
+        c.count("timed.change-right-after-refresh-histories");
+    }
     let par = c.n(128, 64);
     run_children(c, &fx, hists, par);
+    // second review G2: the system zone is not UTC, /etc/localtime changes: private mount namespace
+    run_ns_children(c, &fx, ns_histories());
     let _ = std::fs::remove_dir_all(std::env::current_dir().unwrap().join("c18fx"));
 }
